@@ -146,10 +146,8 @@ def tls_host_table(facts):
         st[LOG] = ("list", l[1] + (("const", ev),))
 
     def deref(ev, st, v, hops=6):
-        while v is not None and v[0] in ("ref", "refmut", "refval") and hops > 0:
-            v = st.get(v[1]) if v[0] != "refval" else v[1]
-            hops -= 1
-        return v
+        from core import deref_value
+        return deref_value(st, v, hops)
 
     def setd(st, t, v):
         d = t["dest"]
